@@ -32,7 +32,7 @@ ASSUMPTIONS = [
     "std HashMap iteration order of Config.clusters is arbitrary: the model takes the order as a list and the theorems hold for every permutation; observations are compared sorted",
     "certificate fingerprints (sha256 of the DER) and SAN extraction are oracles: certificates are pool indices, distinct indices have distinct fingerprints (checked by the driver)",
     "hostnames, paths and methods contain no ';' (the state keys an HTTP route by a ';'-joined string, the model by the tuple)",
-    "answers / custom answer files, cipher lists, tls_versions, header edits and metrics sections are not modelled (not generated)",
+    "answer files (file://, answer_NNN), certificate chains, groups_list/cipher_suites and metrics sections are not generated; answers maps, tls_versions, cipher_list, header edits travel through the model as opaque data",
 ]
 TRUSTED = ["translator props/c20.py:translate extracts the counter type of generate_config_messages, the defaults and H2_MIN_BUFFER_SIZE from command/src/config.rs into coq/C20/Gen.v"]
 
@@ -687,10 +687,10 @@ def small_decl(rng):
     return g, d
 
 
-def sized_decl(rng, ncl, nf=2, nb=1, nl=0):
+def sized_decl(rng, ncl, nf=2, nb=1, nl=0, activate="any"):
     """ncl clusters x (1 AddCluster + nf frontends + nb backends) + listeners"""
     g = Gen(rng, big=True)
-    g.d.activate = rng.choice([None, True, False])
+    g.d.activate = rng.choice([None, True, False]) if activate == "any" else activate
     for _ in range(nl):
         g.listener(rng.choice([0, 1, 2, 3]))
     shared = [g.listener(0), g.listener(2)] if ncl else []
@@ -751,6 +751,14 @@ def violate(rng, which):
         elif which == "h2-small-buffer":
             if not g.h2_in_play(): continue
             d.buffer_size = r.choice([16392, 1024, 0, 8192])
+        elif which == "h2-not-first-small-buffer":
+            # the only listener advertising h2 lists it after http/1.1
+            ls = [l for l in d.listeners if l.proto == 1]
+            if not ls or any(k == 1 and a not in g.lobj for a, k in g.kind.items()): continue
+            for l in ls:
+                l.alpn = ["http/1.1"]; l.disable_http11 = None
+            r.choice(ls).alpn = ["http/1.1", "h2"]
+            d.buffer_size = r.choice([16392, 1024, 8192])
         elif which == "public-address-with-expect-proxy":
             ls = [l for l in d.listeners if l.proto != 3]
             if not ls: continue
@@ -879,7 +887,7 @@ VIOLATIONS = ["unknown-listener-protocol", "unknown-cluster-protocol", "missing-
               "tcp-frontend-with-hostname", "tcp-cluster-mixing-expect-proxy", "hsts-on-http-frontend", "duplicate-cluster-id",
               "automatic-state-save-without-saved-state", "missing-certificate-file", "malformed",
               "certificate-without-key", "key-without-certificate", "invalid-health-check",
-              "duplicate-route", "duplicate-tcp-frontend", "duplicate-backend"]
+              "duplicate-route", "duplicate-tcp-frontend", "duplicate-backend", "h2-not-first-small-buffer"]
 
 
 def gen_cases(rng, tier):
@@ -901,6 +909,11 @@ def gen_cases(rng, tier):
     for k, (ncl, nf, nb, nl) in enumerate(sizes):
         g, d = sized_decl(rng, ncl, nf, nb, nl)
         out.append(case_of("z%d_%d" % (k, ncl), d, "accept", dict(size=ncl)))
+    # exactly 254 .. 258 generated messages (the 8-bit counter of the original tree: 256 messages still had distinct
+    # ids in release but already overflowed the increment in the checked build)
+    for k, (nl, act) in enumerate([(127, True), (128, True), (129, True), (255, False), (256, False), (257, False)]):
+        g, d = sized_decl(rng, 0, 0, 0, nl, activate=act)
+        out.append(case_of("y%d_%d" % (k, nl), d, "accept", dict(size=nl)))
     return out
 
 
@@ -930,21 +943,24 @@ def nontrivial(case, o):
 
 
 LEVEL_TEXT = ("Machine-checked proof (Coq 8.16) over an executable model of the configuration pipeline "
-              "declaration -> loader checks (FileConfig::load_from_path, ConfigBuilder::into_config) -> generate_config_messages (the "
-              "counter's machine width is regenerated from the source) -> ConfigState::dispatch. Theorems, for ANY number of entries and "
-              "any HashMap iteration order: load_total_and_exact (the generated requests are all accepted by a fresh state and the state "
-              "is exactly final_state), loaded_state_exact / loaded_config_exact (same objects, each once; every declared cluster with "
-              "all its frontends and backends), reload_idempotent, ids_unique_upto / ids_collide_beyond over any modulus, ids_unique for "
-              "the current counter (usize after the fix; ids_unique_refuted_u8 is the witness for the original u8), violations_rejected "
-              "(acceptance implies the modelled documented constraints). The model is tied to command/src/{config,state}.rs on every run "
-              "by a constant translator and a differential run of the real loader on TOML printed from generated declarations, in the "
-              "release and the overflow-checked build.")
-LEVEL_NOTE = ("Partial where stated: TOML -> FileConfig (toml/serde) is covered by the correspondence only; 'every frontend has a listener "
-              "of its protocol' is checked by the driver's oracle on every case but not proved; the theorems carry the decidable hypothesis "
-              "keys_ok (distinct frontends/backends): the loader does not enforce it (open findings dup-frontend-accepted, "
-              "dup-backend-merged). 'Frontend without listener' is modelled as the code has it: an undeclared frontend address gets a "
-              "default listener of the frontend's protocol, a declared listener of another protocol is rejected. Trusted: Coq kernel; "
-              "extraction + ocaml/driver.ml for the correspondence only; certificate parsing is an oracle; answers, cipher lists, "
-              "tls_versions, header edits, metrics sections are not modelled. Defects found and fixed in /repo: u8 message counter "
-              "(cd23906), certificate without key (1ae5a06), unvalidated health_check (c916f85).")
+              "declaration -> loader checks (FileConfig::load_from_path, ConfigBuilder::into_config incl. the duplicate checks) -> "
+              "generate_config_messages (the counter's machine width is regenerated from the source) -> ConfigState::dispatch. Theorems, "
+              "for ANY number of entries and any HashMap iteration order, with no side condition on the file: "
+              "loader_enforces_distinct_keys and frontends_have_listeners (the loader invariant: every key the state uses is unique in an "
+              "accepted file; every frontend sits on a listener of its own protocol), load_total_and_exact (the generated requests are all "
+              "accepted by a fresh state and the state is exactly final_state), loaded_state_exact / loaded_config_exact (same objects, each "
+              "once; every declared cluster with all its frontends and backends), accepted_health_checks_valid, reload_idempotent, "
+              "ids_unique_upto / ids_collide_beyond over any modulus, ids_unique for the current counter (usize after the fix; "
+              "ids_unique_refuted_u8 is the witness for the original u8), violations_rejected (acceptance implies the modelled documented "
+              "constraints). The model is tied to command/src/{config,state}.rs on every run by a constant translator and a differential run "
+              "of the real loader on TOML printed from generated declarations, in the release and the overflow-checked build.")
+LEVEL_NOTE = ("Partial where stated: TOML -> FileConfig (toml/serde) is covered by the correspondence only. x_real_ip flags, answers maps, "
+              "tls_versions, cipher_list, tls1.3 tickets, authorized_hashes and header edits are pass-through data of the model (compared "
+              "with the implementation's state on every case, defaults regenerated from the source; load_answers' skipping of empty bodies "
+              "is mirrored by the generator); answer files (file://, legacy answer_NNN), certificate chains, metrics sections are not "
+              "generated. 'Frontend without listener' is modelled as the code has it: an undeclared frontend address gets a default "
+              "listener of the frontend's protocol, a declared listener of another protocol is rejected. Trusted: Coq kernel; extraction + "
+              "ocaml/driver.ml for the correspondence only; certificate parsing is an oracle. Defects found and fixed in /repo: u8 message "
+              "counter (cd23906), certificate without key (1ae5a06), unvalidated health_check (c916f85), duplicate frontends accepted "
+              "(b1489f3, 495ea94), duplicate backends merged (58bb4e6).")
 TECHNIQUE = "Rocq/Coq proof over an executable Gallina model + differential correspondence (extracted OCaml vs real crate)"
